@@ -159,7 +159,7 @@ class Env(object):
         rec = {"b": k, "i": self.iid(target) if target is not None else -1, "what": what, "via": via,
                "item_done": target.is_computed() if target is not None else None,
                "item_out": peek(target) if target is not None else None,
-               "batch_done": batch.is_computed(), "runs0": batch.runs, "depth": self.stack.count(k),
+               "batch_done": batch.is_computed(), "batch_out": peek(batch), "runs0": batch.runs, "depth": self.stack.count(k),
                "nlog0": len(self.log)}
         self.asking.append(rec)
         exc = None
@@ -167,6 +167,12 @@ class Env(object):
             if what == "flush":
                 batch.flush()
                 r = "RUnit"
+            elif what == "batch-value":
+                v = batch.value()
+                r = {"RVal": [treeval(v)]} if batch.is_computed() else "RNotComputed"
+            elif what == "batch-error":
+                e = batch.error()
+                r = "RNoError" if e is None else {"RErr": [exn_id(e)]}
             elif what == "value":
                 v = target.value()
                 r = {"RVal": [treeval(v)]} if target.is_computed() else "RNotComputed"
@@ -185,6 +191,8 @@ class Env(object):
         self.reads.append(rec)
         if what == "flush":
             self.log.append({"EReflush": [k, r]})
+        elif what.startswith("batch-"):
+            self.log.append({"EBRead": [k, r]})
         else:
             self.log.append({"ERead": [k, rec["i"], r]})
         return r, exc
@@ -283,6 +291,10 @@ class HBatch(BatchBase):
             elif name == "AReflush":
                 r, exc = env.reentrant(self, "flush", "body")
                 if exc is not None and arg[0] != "true":
+                    raise exc
+            elif name == "AReadBatch":
+                r, exc = env.reentrant(self, "batch-value" if arg[0] == "KValue" else "batch-error", "body")
+                if exc is not None and arg[1] != "true":
                     raise exc
             elif name == "ASetRead":
                 k, j = arg[0]["n"], arg[2]["n"]
